@@ -295,6 +295,15 @@ func (c *Ctx) ruleU2(rule string) {
 			if nt == nil || nt.Obj().Pkg() == nil || nt.Obj().Pkg().Path() != pBase || nt.Obj().Name() == "KnowledgeContext" {
 				return
 			}
+			// only the types a compiled rule is made of (reachable from RuleEntity); a helper type
+			// of the package that lives in local variables is not shared between executions
+			if !c.astTypes()[nt.Obj().Name()] {
+				return
+			}
+			// ... and not a private instance the function created itself
+			if _, fresh := c.Index(f).Origin(fa.X).(*ssa.Alloc); fresh {
+				return
+			}
 			c.Check(rule, fmt.Sprintf("%s#ast-store-%s.%s", fnName(f), nt.Obj().Name(), fieldOf(fa).Name()), false, in.Pos(), "a compiled rule / AST node field (%s.%s) is written outside the compile step; compiled rules are shared by all executions and versions", nt.Obj().Name(), fieldOf(fa).Name())
 		})
 	}
@@ -672,4 +681,52 @@ func (c *Ctx) ruleK2(rule string) {
 		}
 		c.Check(rule, key, bad == "", badPos, "%s", orStr(bad, fmt.Sprintf("%d publishing step(s); none can be followed by an error return", len(pubs))))
 	}
+}
+
+// astTypes: the named struct types of package base that a compiled rule
+// consists of: everything reachable from RuleEntity through fields, pointers,
+// slices and maps.
+func (c *Ctx) astTypes() map[string]bool {
+	if v, ok := c.extra["astTypes"].(map[string]bool); ok {
+		return v
+	}
+	out := map[string]bool{}
+	sp := c.SSA[pBase]
+	var visit func(t types.Type, d int)
+	visit = func(t types.Type, d int) {
+		if d > 12 {
+			return
+		}
+		switch u := t.(type) {
+		case *types.Pointer:
+			visit(u.Elem(), d+1)
+		case *types.Slice:
+			visit(u.Elem(), d+1)
+		case *types.Array:
+			visit(u.Elem(), d+1)
+		case *types.Map:
+			visit(u.Key(), d+1)
+			visit(u.Elem(), d+1)
+		case *types.Named:
+			if u.Obj().Pkg() == nil || u.Obj().Pkg().Path() != pBase {
+				return
+			}
+			if out[u.Obj().Name()] {
+				return
+			}
+			if st, ok := u.Underlying().(*types.Struct); ok {
+				out[u.Obj().Name()] = true
+				for i := 0; i < st.NumFields(); i++ {
+					visit(st.Field(i).Type(), d+1)
+				}
+			}
+		}
+	}
+	if sp != nil {
+		if t := sp.Type("RuleEntity"); t != nil {
+			visit(t.Type(), 0)
+		}
+	}
+	c.extra["astTypes"] = out
+	return out
 }
